@@ -72,10 +72,10 @@ type Sim struct {
 	unlockEpoch uint64
 	draining    bool
 
-	Tape    *Tape
-	Quiesce func()         // synctest.Wait, installed by the harness
-	Knobs   map[string]int // written by the scenario before tasks start; read-only afterwards
-	HeldPoints bool        // scheduling point before every unlock (set before tasks start)
+	Tape       *Tape
+	Quiesce    func()         // synctest.Wait, installed by the harness
+	Knobs      map[string]int // written by the scenario before tasks start; read-only afterwards
+	HeldPoints bool           // scheduling point before every unlock (set before tasks start)
 
 	// event log
 	hash      uint64
@@ -489,7 +489,9 @@ func Lock(try func() bool, site string) {
 // to take a lock that is already held (it would block forever).
 type InlineDeadlock struct{ Site string }
 
-func (d InlineDeadlock) Error() string { return "lock already held in a sequential execution at " + d.Site }
+func (d InlineDeadlock) Error() string {
+	return "lock already held in a sequential execution at " + d.Site
+}
 
 // Unlock replaces m.Unlock().
 //
